@@ -161,9 +161,9 @@ class Ref:
         out["line1"] = ([("not", tX)], "return", ("SUM", P, ("diff", V, Y)))
         out["line2"] = ([tX, tN], "return", self.recurse(self.ident(Y, ("inter", X, An), ("SUM", P, notAn), self.m(G, "subgraph", vertices=An))))
         out["line3"] = ([tX, ("not", tN), tW], "return", self.recurse(self.ident(Y, ("union", X, W), P, G)))
-        subq = ("comp", "list", self.ident(s_, ("diff", V, s_), P, G), ((s_, self.m(H, "districts"), ()),))
+        subq = ("comp", "gen", self.recurse(self.ident(s_, ("diff", V, s_), P, G)), ((s_, self.m(H, "districts"), ()),))
         out["line4"] = ([tX, ("not", tN), ("not", tW), ("not", CH)], "return",
-                        ("SUM", ("PROD", ("call", "map", (("ref", IDENTIFY), subq), ())), ("diff", V, ("union", Y, X))))
+                        ("SUM", ("PROD", subq), ("diff", V, ("union", Y, X))))
         out["line5"] = ([tX, ("not", tN), ("not", tW), CH, CG], "raise", "Unidentifiable")
         fac6 = ("comp", "gen", self.cond_p(v_, G), ((v_, S, ()),))
         out["line6"] = ([tX, ("not", tN), ("not", tW), CH, ("not", CG), ("in", S, DG)], "return", ("SUM", ("PROD", fac6), ("diff", S, Y)))
